@@ -31,7 +31,10 @@ import (
 	"github.com/bufbuild/protocompile/experimental/seq"
 	"github.com/bufbuild/protocompile/experimental/source"
 	"github.com/bufbuild/protocompile/experimental/verifharness/vhlib"
+	"google.golang.org/protobuf/encoding/prototext"
+	"google.golang.org/protobuf/encoding/protowire"
 	"google.golang.org/protobuf/proto"
+	"google.golang.org/protobuf/reflect/protoreflect"
 	"google.golang.org/protobuf/reflect/protodesc"
 	"google.golang.org/protobuf/types/descriptorpb"
 )
@@ -80,6 +83,28 @@ func treeJSON(ts []printer.VerifTok) []any {
 	return out
 }
 
+// flatToks lists the leaves of the token tree of a text in stream order: [class, hex text, depth,
+// role] with role 0 leaf, 1 open token of a fused pair, 2 close token.
+func flatToks(path, text string) []any {
+	file, _, _ := parse(path, text)
+	tree, _, _ := printer.VerifTriviaDump(file.Stream())
+	var out []any
+	var walk func(ts []printer.VerifTok, depth int)
+	walk = func(ts []printer.VerifTok, depth int) {
+		for _, t := range ts {
+			if t.Class >= 9 {
+				out = append(out, []any{t.Class, vhlib.Hx([]byte(t.Text)), depth, 1})
+				walk(t.Children, depth+1)
+				out = append(out, []any{t.Class, vhlib.Hx([]byte(t.CloseText)), depth, 2})
+			} else {
+				out = append(out, []any{t.Class, vhlib.Hx([]byte(t.Text)), depth, 0})
+			}
+		}
+	}
+	walk(tree, 0)
+	return out
+}
+
 func ints(xs []int) []any {
 	out := make([]any, len(xs))
 	for i, x := range xs {
@@ -124,8 +149,15 @@ func compileOne(path, text string, files map[string]string, dirs []string) compi
 		}
 		return compiled{err: e}
 	}
-	fd := protodesc.ToFileDescriptorProto(fs[0])
-	fd.SourceCodeInfo = nil
+	fd0 := protodesc.ToFileDescriptorProto(fs[0])
+	fd0.SourceCodeInfo = nil
+	// Through bytes into a plain descriptorpb message: option messages of two compilations refer to
+	// different descriptor objects (proto.Equal would call them different), and custom options
+	// become unknown fields, compared bytewise.
+	fd := &descriptorpb.FileDescriptorProto{}
+	if err := proto.Unmarshal(detBytes(fd0), fd); err != nil {
+		return compiled{err: "re-unmarshal: " + err.Error()}
+	}
 	return compiled{fd: fd}
 }
 
@@ -176,6 +208,75 @@ func onlyDependencyPermutation(a, b *descriptorpb.FileDescriptorProto) bool {
 	return proto.Equal(a, c)
 }
 
+func clip(s string) string {
+	if len(s) > 4000 {
+		return s[:4000]
+	}
+	return s
+}
+
+// normalise returns a copy with `dependency` sorted (public/weak re-mapped) and the unknown fields of
+// every message (custom options are kept as unknown fields by the stable compiler) stably sorted
+// by field number.
+func normalise(fd *descriptorpb.FileDescriptorProto) *descriptorpb.FileDescriptorProto {
+	c := proto.Clone(fd).(*descriptorpb.FileDescriptorProto)
+	old := slices.Clone(c.Dependency)
+	sort.Strings(c.Dependency)
+	remap := func(idx []int32) []int32 {
+		var out []int32
+		for _, i := range idx {
+			if int(i) >= 0 && int(i) < len(old) {
+				out = append(out, int32(slices.Index(c.Dependency, old[i])))
+			}
+		}
+		slices.Sort(out)
+		return out
+	}
+	c.PublicDependency = remap(c.PublicDependency)
+	c.WeakDependency = remap(c.WeakDependency)
+	sortUnknown(c.ProtoReflect())
+	return c
+}
+
+func sortUnknown(m protoreflect.Message) {
+	if u := m.GetUnknown(); len(u) > 0 {
+		type rec struct {
+			num protowire.Number
+			b   []byte
+		}
+		var recs []rec
+		for len(u) > 0 {
+			num, _, n := protowire.ConsumeField(u)
+			if n < 0 {
+				recs = nil
+				break
+			}
+			recs = append(recs, rec{num, u[:n]})
+			u = u[n:]
+		}
+		if recs != nil {
+			sort.SliceStable(recs, func(i, j int) bool { return recs[i].num < recs[j].num })
+			var out []byte
+			for _, r := range recs {
+				out = append(out, r.b...)
+			}
+			m.SetUnknown(out)
+		}
+	}
+	m.Range(func(fd protoreflect.FieldDescriptor, v protoreflect.Value) bool {
+		switch {
+		case fd.IsList() && fd.Message() != nil:
+			for i := range v.List().Len() {
+				sortUnknown(v.List().Get(i).Message())
+			}
+		case fd.IsMap():
+		case fd.Message() != nil:
+			sortUnknown(v.Message())
+		}
+		return true
+	})
+}
+
 // firstDiff names the first top-level field of FileDescriptorProto in which a and b differ.
 func firstDiff(a, b *descriptorpb.FileDescriptorProto) string {
 	ra, rb := a.ProtoReflect(), b.ProtoReflect()
@@ -212,6 +313,15 @@ func printerCase(in map[string]any) map[string]any {
 	if nerr > 0 {
 		out["err1"] = first
 	}
+	if vhlib.Bool(in, "diags") {
+		errs := &report.Report{}
+		parser.Parse(path, source.NewFile(path, text), errs)
+		var ds []any
+		for _, d := range errs.Diagnostics {
+			ds = append(ds, []any{int(d.Level()), d.Message()})
+		}
+		out["diags"] = ds
+	}
 
 	if has("rt") {
 		whole, err := printer.PrintFile(printer.Options{}, file)
@@ -224,6 +334,10 @@ func printerCase(in map[string]any) map[string]any {
 			parts = append(parts, vhlib.Hx([]byte(printer.Print(printer.Options{}, decl))))
 		}
 		out["decls"] = parts
+		if whole != text {
+			out["src_toks"] = flatToks(path, text)
+			out["rt_toks"] = flatToks(path, whole)
+		}
 	}
 
 	if has("trivia") {
@@ -302,6 +416,19 @@ func printerCase(in map[string]any) map[string]any {
 				default:
 					r["cmp"] = "different"
 					r["cmp_field"] = firstDiff(orig.fd, c.fd)
+					// what remains once the permutation of `dependency` and the order of the
+					// uninterpreted/unknown option fields are normalised
+					a2 := normalise(orig.fd)
+					b2 := normalise(c.fd)
+					switch {
+					case proto.Equal(a2, b2):
+						r["cmp_norm"] = "equal-modulo-dependency-and-option-field-order"
+					default:
+						r["cmp_norm"] = "different"
+						r["cmp_field"] = firstDiff(a2, b2)
+						r["cmp_a"] = clip(prototext.MarshalOptions{Multiline: false}.Format(a2))
+						r["cmp_b"] = clip(prototext.MarshalOptions{Multiline: false}.Format(b2))
+					}
 				}
 			}
 			res[ps.name] = r
